@@ -110,12 +110,12 @@ func colF(i, n int) []float64 {
 
 // cTex is a texture reference with everything resolved and defaults applied.
 type cTex struct {
-	URI                   string
+	URI                    string
 	Mag, Min, WrapS, WrapT int
-	TexCoord              int
-	Off, Scl              [2]float64
-	Rot                   float64
-	XTexCoord             int // texCoord override of KHR_texture_transform, -1 none
+	TexCoord               int
+	Off, Scl               [2]float64
+	Rot                    float64
+	XTexCoord              int // texCoord override of KHR_texture_transform, -1 none
 }
 
 func defaultTex(uri string) cTex {
